@@ -113,6 +113,8 @@ structure Method where
   derived : Bool
   /-- `coroSuspPoint > 0`: the body has at least one suspension point -/
   suspPoints : Bool
+  /-- `len(n.Body()) == 0` -/
+  emptyBody : Bool := false
   deriving Repr, Inhabited
 
 /-- `funk.returnsStatus`. -/
@@ -123,6 +125,13 @@ def Method.returnsStatus (m : Method) : Bool :=
 `status` variable, the `exit:` label and the error ⇒ DISABLED epilogue are emitted. -/
 def Method.hasStatusVar (m : Method) : Bool :=
   m.effect == .coroutine || (m.returnsStatus && m.derived)
+
+/-- `writeFuncImpl` emits prologue and body only `if (len(n.Body()) != 0) || n.Effect().Coroutine() ||
+(n.Out() != nil)`: a public method with an empty body, no result and no `?` is just
+`return wuffs_base__make_empty_struct();` — no receiver, magic or argument check at all
+(e.g. the `set_report_metadata!` of decoders without metadata). -/
+def Method.skipsPrologue (m : Method) : Bool :=
+  m.emptyBody && m.effect != .coroutine && !m.hasOut
 
 /-- The part of `self->private_impl` the protocol reads and writes.  `susp f` is `p_<f>` of the
 public coroutine with `coroID = f`. Memory that was never initialised is any value of this type. -/
@@ -257,9 +266,9 @@ def afterBody (m : Method) (o : Obj) (b : BodyRes) : Obj :=
 def epilogue (o : Obj) (s : Status) : Obj :=
   if s.isError then { o with magic := DISABLED } else o
 
-/-- One call of a public method: prologue checks in emission order, then the body (given), then the
-exit blocks. -/
-def callMethod (m : Method) (o : Obj) (selfNull : Bool) (args : List ArgVal) (b : BodyRes) :
+/-- One call of a public method that has the prologue: checks in emission order, then the body
+(given), then the exit blocks. -/
+def callMethodChecked (m : Method) (o : Obj) (selfNull : Bool) (args : List ArgVal) (b : BodyRes) :
     Obj × Ret :=
   if selfNull then (o, nullSelfRet m)
   else if magicBad m o then (o, badMagicRet m o)
@@ -275,6 +284,11 @@ def callMethod (m : Method) (o : Obj) (selfNull : Bool) (args : List ArgVal) (b 
     (epilogue o b.st, .st b.st)
   else
     (o, if m.returnsStatus then .st b.st else .value)
+
+/-- One call of a public method (`writeFuncImpl`). -/
+def callMethod (m : Method) (o : Obj) (selfNull : Bool) (args : List ArgVal) (b : BodyRes) :
+    Obj × Ret :=
+  if m.skipsPrologue then (o, .zero) else callMethodChecked m o selfNull args b
 
 /-! ### histories -/
 
@@ -331,6 +345,10 @@ structure DerivedVar where
 
 def shapeOfMethod (m : Method) (names : List String) (dvs : List DerivedVar)
     (bodyEndsWithReturn : Bool) : String :=
+  if m.skipsPrologue then
+    "null:missing magic:missing badmagic:missing args:none interleave:none statusvar:no " ++
+    "load:none suspend:none save:none epi:return-empty"
+  else
   let null := if m.returnsStatus then "null:badrecv" else "null:zero"
   let magic := if m.effect == .pure then "magic:ne-magic&ne-disabled" else "magic:ne-magic"
   let badm := if m.returnsStatus then "badmagic:disabled?disabled:notinit" else "badmagic:zero"
